@@ -156,7 +156,21 @@ func (cls *CachedLocations) Open(ctx *Context, sys *System, name string, check b
 			// finds the entry by name.
 			cls.Unlock()
 			VerifYield("CachedLocations.Open.unlocked")
-			return cl.get(ctx, sys, name, check, false)
+			loc, err := cl.get(ctx, sys, name, check, false)
+			if err == nil && loc != nil && check {
+				// Somebody who does not check for existence (a
+				// child looking for its parent) may have loaded
+				// the location into the entry meanwhile; then
+				// 'get' has not looked for the marker.
+				created, err := locationCreated(ctx, loc)
+				if err != nil {
+					return nil, err
+				}
+				if !created {
+					return nil, NewNotFoundError("%s", name)
+				}
+			}
+			return loc, err
 		}
 		ctl := sys.Control()
 		ttl := ctl.LocationTTL
